@@ -1,6 +1,8 @@
 import BV.Model.Header
 import BV.Model.Stored
 import BV.Drive.Util
+import BV.Drive.Stream
+import BV.Model.StreamNF
 /-
 Line protocol of the `header` engine (leading token `header` stripped by `Drive.lean`):
 
@@ -24,6 +26,14 @@ Line protocol of the `header` engine (leading token `header` stripped by `Drive.
                                   `<len> <fnv digest> <first 16 bytes> <last 8 bytes>` | `panic`
   oneshot <n> <cap> <T|big>     → `encoder_compress` decision: `<ret> <encoded_size> <kind>`;
                                   T = length of the complete stream-phase output (`big`: above the bound)
+  nfrun <call> <call> …         a whole history in the skeleton format of the `stream` engine (`P:` / `C:` / `T:` tokens,
+                                inputs `#<len>`, recorded payload-encoder answers) run through `BV.Stream.run`
+                                → `<delivered bytes> <input_pos_> <data bytes consumed> <Max(input_pos_)> <spans of the closed meta-blocks joined by , | ->`
+                                  (`BV.Stream.nfSummary`, the run-level object of C08's stream clause)
+  oneshotrun <q> <lgwin> <n> <cap> <answers | ->
+                                the one-shot call over the stream machine (`BV.Stream.oneshotRun`): n zero bytes,
+                                `*encoded_size = cap`, the recorded payload-encoder answers of its stream phase
+                                → `<ret> <encoded_size> <kind>`
 -/
 namespace BV.Drive.Header
 open BV.Drive BV.Bits BV.Header BV.Stored
@@ -117,6 +127,34 @@ def handle (args : List String) : String :=
     | .panic => "panic"
     | .fuel => "fuel"
     | .ok r => s!"{if r.ret then 1 else 0} {r.encodedSize} {r.kind}"
+  | "nfrun" :: toks =>
+    match BV.Drive.Stream.parseCalls false toks with
+    | none => "bad-op"
+    | some (calls, answers) =>
+      let o : BV.Stream.Oracle := fun k _ => answers.getD k {}
+      let fuel := 8 * BV.Stream.histLen calls + 8 * (calls.foldl (fun m c => match c with | .stream _ _ cap => max m cap | _ => m) 0)
+                  + (answers.foldl (fun m a => m + a.bits.length) 0) + 8192
+      match BV.Stream.run o fuel calls BV.Stream.St.new {} with
+      | .ok (st, t) =>
+        let sm := BV.Stream.nfSummary st t
+        let sp := if sm.2.2.2.2.isEmpty then "-" else ",".intercalate (sm.2.2.2.2.map toString)
+        s!"{sm.1} {sm.2.1} {sm.2.2.1} {sm.2.2.2.1} {sp}"
+      | .panic => "panic"
+      | .fuel => "fuel"
+  | ["oneshotrun", q, lgwin, n, cap, ans] =>
+    let n := natArg n
+    let cap := natArg cap
+    let answers : Option (List BV.Stream.Ans) := if ans = "-" then some [] else BV.Drive.Stream.parseAnswers false ans
+    match answers with
+    | none => "bad-op"
+    | some answers =>
+      let o : BV.Stream.Oracle := fun k _ => answers.getD k {}
+      let fuel := 8 * n + 8 * cap + (answers.foldl (fun m a => m + a.bits.length) 0) + 8192
+      match BV.Stream.oneshotRun o fuel (intArg q) (intArg lgwin) (List.replicate n 0) cap cap with
+      | none => "stream-phase-failed"
+      | some (.ok r) => s!"{if r.ret then 1 else 0} {r.encodedSize} {r.kind}"
+      | some .panic => "panic"
+      | some .fuel => "fuel"
   | _ => "bad-op"
 
 end BV.Drive.Header
